@@ -1000,6 +1000,7 @@ def parse_qsl(qs, keep_blank_values=True, encoding=DEFAULT_ENCODING):
 
 from collections.abc import KeysView, ValuesView, ItemsView
 from itertools import zip_longest
+from reprlib import recursive_repr
 
 try:
     from .typeutils import make_sentinel
@@ -1579,7 +1580,9 @@ class OrderedMultiDict(dict):
             lengths[k] += 1
             curr = curr[PREV]
 
+    @recursive_repr()
     def __repr__(self):
+        # like list and dict, a dictionary that contains itself prints '...'
         cn = self.__class__.__name__
         kvs = ', '.join([repr((k, v)) for k, v in self.iteritems(multi=True)])
         return f'{cn}([{kvs}])'
